@@ -3,7 +3,8 @@ import LocustModel.Store.Proto
   Driver for C13.  Input: a history line (see `LocustModel/Store/Proto.lean`) whose column names come from the
   C13 name pool.  Output:  <model dump> TAB <spec dump> [TAB compaction-null-loss]
     (third field: classifier of the open C07 finding — a compaction merged rows containing a NULL cell)
-    spec dump: every table / column ever ingested listed exactly once (`MT=`, `MC<t>=`, column list of `T<t>=`),
+    spec dump: every table / column ever ingested listed exactly once (`MT=`, `MC<t>=`, `SC<t>=` =
+    search_column_names(t, ".*"), column list of `T<t>=`),
     cells of columns a batch did not mention are NULL.
 -/
 namespace LM.DrvC13
@@ -12,7 +13,10 @@ open LM.Proto LM.Store.Drv
 def step (line : String) : String :=
   match runLine line with
   | none => "bad-op\tbad-op"
-  | some (s, _) => dumpModel s ++ "\t" ++ dumpSpec s ++ (if s.nullCompacted then "\tcompaction-null-loss" else "")
+  | some (s, _) =>
+    let hasUsers := !(userTables s).isEmpty
+    dumpModel s ++ (if hasUsers then dumpSearchModel s else "") ++ "\t" ++
+      dumpSpec s ++ (if hasUsers then dumpSearchSpec s else "") ++ (if s.nullCompacted then "\tcompaction-null-loss" else "")
 
 end LM.DrvC13
 
